@@ -10,6 +10,7 @@
   counters and status must agree bit for bit); the pure pieces (`interpolate`, `computeR`, `changeD`, `predict`,
   `weightedRms`) are reasoned about over ordered fields.
 -/
+import IvpModel.Gen.Static
 import IvpModel.Num
 import IvpModel.Model.LU
 import IvpModel.Model.LUF
@@ -221,7 +222,7 @@ def solve (L : NLits α) (S : Setup α) (ode jac : Nat → α → Array α → A
   | none =>
     let base := nOde
     let r := Gen.Common.hinit (n := n) (f := fun j t yv => toVec n (ode (base + j) t yv.toArray)) (atol := toVec n S.atol) (rtol := toVec n S.rtol)
-      (y := toVec n y) (f0 := toVec n f0) (hmax := Num.fmin hmax (Num.abs (xend - x))) (posneg := direction) (x := x) (iord := 1)
+      (y := toVec n y) (f0 := toVec n f0) (hmax := Num.fmin hmax (Num.abs (xend - x))) (posneg := direction) (x := x) (iord := Gen.Static.bdf_hinitOrder)
     for c in r.2 do
       log := log.push (.ode nOde c.1 c.2.toArray)
       nOde := nOde + 1
